@@ -62,6 +62,9 @@ package agreement
 //       -> C40:msgiszero:agreement.proposalValue and C40:encoders-differ on rawVote / bundles
 //   data/transactions/msgp_gen.go Transaction.UnmarshalMsg: "fv" stored into LastValid
 //       -> C40:reencode (decode + re-encode changes the bytes)
+//   seeded C40-A (AssetParams.MsgIsZero loses Clawback) -> C40:msgiszero + C40:encoders-differ
+//   seeded C40-B (HashType.Validate whitelist misses Sha512) -> first MISSED (HashType values were
+//       {1,2}); now every enum variant 1..MaxHashType-1 is enumerated -> C40:decode-msgp
 //   data/transactions/msgp_gen.go Header.MarshalMsg: "lx" emitted before "lv" (wrong only when
 //       BOTH are present)                          -> C40:encoders-differ on the two-hot
 //       {LastValid, Lease} and on all-set; no one-hot instance shows it
